@@ -1152,6 +1152,16 @@ void execRoundTrip(const Plan& p, Ctx& c)
         else { q0.e.clear(); q1.e.clear(); c.count("skipped.probe-shape-after-rounding"); }
       }
       std::string df = descDiff(q0, q1, 1e-9 * rounds, 1e-300);
+      if (!df.empty() && getenv("SIMKIT_DEBUG_DESC"))
+      {
+        // debugging aid for replays: parameters of both objects, appended to the named file
+        FILE* dbg = fopen(getenv("SIMKIT_DEBUG_DESC"), "a");
+        for (size_t i = 0; dbg && i < e0.e.size() && i < e1.e.size(); i++)
+          fprintf(dbg, "desc %s : %ld %.17g %s | %ld %.17g %s\n", e0.e[i].key.c_str(), e0.e[i].i, e0.e[i].d, e0.e[i].s.c_str(), e1.e[i].i, e1.e[i].d, e1.e[i].s.c_str());
+        for (size_t i = 0; dbg && i < p0.e.size() && i < p1.e.size(); i++)
+          fprintf(dbg, "probe %s : %ld %.17g | %ld %.17g\n", p0.e[i].key.c_str(), p0.e[i].i, p0.e[i].d, p1.e[i].i, p1.e[i].d);
+        if (dbg) fclose(dbg);
+      }
       if (!df.empty()) { c.violation(P + "probe-differs|" + cn + "|" + keyStem(firstWord(df)), df); return; }
     }
     {
